@@ -556,6 +556,7 @@ SymOk(s, d) == s.t = "atom" \/ d < MaxD
 IfInit ==
   \E i \in 1..Len(AllSyms) :
     /\ Mine(i) /\ SymOk(AllSyms[i], 0)
+    /\ MaxD >= 2 => AllSyms[i].t # "atom"           \* deep (simulation) bounds: do not spend walks on a lone atom
     /\ g = [pre |-> <<AllSyms[i]>>, pend |-> Holes(AllSyms[i], 0)]
     /\ ph = IF Arity(AllSyms[i]) = 0 THEN "done" ELSE "gen"
 IfNext ==
